@@ -155,6 +155,7 @@ func run(c *fw.Ctx) {
 			{"one", 12, []int{1, 2, 3}, []int{0, 1, 2}},
 			{"oneopt", 12, []int{1, 2, 3}, []int{0, 1}},
 			{"onerep", 12, []int{1, 2, 3}, []int{0, 1}},
+			{"rbool", 18, []int{8, 16}, []int{1}},
 		}
 	} else {
 		cfgs = []cfg{
@@ -165,6 +166,7 @@ func run(c *fw.Ctx) {
 			{"one", 8, []int{1, 2, 3}, []int{0, 1, 2}},
 			{"oneopt", 8, []int{1, 2}, []int{0, 1}},
 			{"onerep", 8, []int{1, 2}, []int{1}},
+			{"rbool", 11, []int{7, 8}, []int{1}},
 		}
 	}
 	var bd []string
